@@ -46,7 +46,7 @@ func newC02gen(seed int64) *c02gen {
 }
 
 var c02Strings = []string{"a", "b", "x", "T", "_", "foo", "err", "string", "", "a.b", "1x", "if", "+", "-", "*", "&", ":=", "=", "==", "<-", "...", "!", "|", "~", "{", "}", "(", ")", ";", ":", ",", "&&", "++", ".", "text", "a\nb", "//raw", "/* blk */", "*/", "x */ y", "%d", "0XFF", "0B1010", "0O755", "1E6", "0X1P-2", "0123i", "1_000", "0x_1F"}
-var c02Paths = []string{"fmt", "a.b/x", "c.d/x", "my/local", "C", "os", "math/rand", "crypto/rand", "", "x/go", "y/1"}
+var c02Paths = []string{"fmt", "a.b/x", "c.d/x", "my/local", "C", "os", "math/rand", "crypto/rand", "", "x/go", "y/1", "x/İstanbul", "k.io/\u212aelvin/v2", "o.io/\u2126mega", "s/Ma\u1e9ee"}
 
 func (g *c02gen) code(depth int) jen.Code {
 	switch g.r.Intn(12) {
@@ -562,6 +562,20 @@ func poison(idx int64) {
 	})
 	mon.Guard(func() {
 		jen.Var().Id("leakedStmt").Op("=").Lit(1).Line().Var().Id("boom").Op("=").Lit(struct{}{}).Render(&bytes.Buffer{})
+	})
+	// renders whose writer fails (at once, half-way, or after having taken everything), formatted and NoFormat: what
+	// the writer did not take must not turn up in a later render either
+	mon.Guard(func() {
+		for m := 0; m < 3; m++ {
+			for _, nf := range []bool{false, true} {
+				wf := jen.NewFile("leak")
+				wf.NoFormat = nf
+				wf.Var().Id("leakedByFailedWrite").Op("=").Lit("secretQ")
+				wf.Func().Id("leakedFuncByFailedWrite").Params().Block()
+				wf.Render(&monWriter{failAt: 1, mode: m})
+			}
+			jen.Var().Id("leakedStmtByFailedWrite").Op("=").Lit(2).Render(&monWriter{failAt: 1, mode: m})
+		}
 	})
 }
 
